@@ -34,6 +34,21 @@ type SchedBus struct {
 	OnPublish func(*wire.Envelope)
 	// Names maps wire address keys to party names for logging.
 	Names map[wire.AddrKey]string
+	// Hold, if set, is asked for every published envelope (after it was queued): if it returns true the
+	// publishing goroutine stays inside Publish until Release is called - every Publish is a scheduling point.
+	Hold func(*wire.Envelope) bool
+	held chan struct{}
+}
+
+// Release lets a publisher that is held inside Publish continue.
+func (b *SchedBus) Release() {
+	b.mu.Lock()
+	h := b.held
+	b.held = nil
+	b.mu.Unlock()
+	if h != nil {
+		close(h)
+	}
 }
 
 // NewSchedBus creates a bus.
@@ -49,7 +64,12 @@ func (b *SchedBus) SubscribeClient(c wire.Consumer, a map[wallet.BackendID]wire.
 	return nil
 }
 
-func (b *SchedBus) roundTrip(e *wire.Envelope) (*wire.Envelope, error) {
+func (b *SchedBus) roundTrip(e *wire.Envelope) (out *wire.Envelope, err error) {
+	defer func() { // a panicking codec is the business of C13/C14; here the envelope simply is not deliverable
+		if p := recover(); p != nil {
+			out, err = nil, fmt.Errorf("codec panic: %v", p)
+		}
+	}()
 	var buf bytes.Buffer
 	var ser wire.EnvelopeSerializer = pserializer.Serializer()
 	if b.Proto {
@@ -80,7 +100,15 @@ func (b *SchedBus) Publish(_ context.Context, e *wire.Envelope) error {
 		return nil
 	}
 	b.Pending = append(b.Pending, e2)
+	var wait chan struct{}
+	if b.Hold != nil && b.Hold(e2) {
+		wait = make(chan struct{})
+		b.held = wait
+	}
 	b.mu.Unlock()
+	if wait != nil {
+		<-wait
+	}
 	return nil
 }
 
